@@ -333,6 +333,7 @@ type c20Go struct {
 	paths  []cty.Path
 	origin string          // accessor that produced it ("" = made by the caller)
 	given  map[string]bool // API entry points it was passed to
+	holdsWalkPath bool     // a PathSet (or its List()) that was given a Walk callback's path without a copy
 }
 
 func (g *c20Go) fp() string {
@@ -465,6 +466,7 @@ func (w *c20Walk) cancel() {
 
 // c20H is the register machine over the real code.
 type c20H struct {
+	outside string // non-empty: a valid call outside the model's fragment was executed; from there on the history is judged by (S) only
 	vals  []cty.Value
 	gos   []*c20Go
 	walks []*c20Walk
